@@ -3,6 +3,7 @@
    model functions names of their own (several models define an [is_session]). *)
 From Coq Require Import Extraction ExtrOcamlBasic ZArith NArith.
 From M Require Import base.ExtractBase gen.Consts base.MiniGo gen.Translated base.Bits64 model.Sizes.
+From M Require model.LowEntropy model.Wire.
 Extraction Language OCaml.
 
 Definition m_pdep_go := pdep_go.
@@ -10,9 +11,22 @@ Definition m_pext_go := pext_go.
 Definition m_repeat32 := repeat32.
 Definition m_max_fragment_internal := Sizes.max_fragment_internal.
 Definition m_max_padding := Sizes.max_padding.
+Definition m_valid_rotation := LowEntropy.valid_rotation.
+Definition m_lowbits := lowbits.
+Definition m_rotate_mask := LowEntropy.rotate_mask.
+Definition m_is_le_proto := LowEntropy.is_le_proto.
+Definition m_wire_is_session := Wire.is_session.
+Definition m_wire_is_data := Wire.is_data.
+Definition m_wire_is_ack := Wire.is_ack.
+Definition m_wire_is_data_ack := Wire.is_data_ack.
+Definition m_wire_is_low_entropy := Wire.is_low_entropy.
 
 Extraction "model.ml"
   xb_zadd xb_zmul xb_zdiv xb_zmod xb_zopp xb_zltb xb_nadd xb_nmul xb_ndiv xb_nmod xb_z_of_n xb_n_of_z xb_n_of_nat xb_nat_of_n xb_keep
   xl_mathext_Min_int xl_mathext_Max_int xl_mathext_Abs_int xl_mathext_RepeatUint32 xl_mathext_pdepGeneric xl_mathext_pextGeneric
   xl_protocol_maxFragmentSizeInternal xl_protocol_maxPaddingSize
-  m_pdep_go m_pext_go m_repeat32 m_max_fragment_internal m_max_padding.
+  xl_protocol_isSessionProtocol xl_protocol_isLowEntropyProtocol xl_protocol_isDataProtocol xl_protocol_isAckProtocol
+  xl_protocol_isDataAckProtocol xl_protocol_isValidLowEntropyRotation xl_protocol_lowBits xl_protocol_rotateLowEntropyMask
+  m_pdep_go m_pext_go m_repeat32 m_max_fragment_internal m_max_padding
+  m_valid_rotation m_lowbits m_rotate_mask m_is_le_proto
+  m_wire_is_session m_wire_is_data m_wire_is_ack m_wire_is_data_ack m_wire_is_low_entropy.
